@@ -129,8 +129,14 @@ func (mdb *MassDBV1) prePlotWork(cache *MemCache) error {
 		return hmA.makeAvailableMemory(cache, uint64(hmA.volume-startPoint)*uint64(recordSize))
 	}
 	var calcWindowSize = func() pocutil.PoCValue {
-		rem := (cache.Len() / recordSize) & 1
-		return pocutil.PoCValue(cache.Len()/recordSize - rem)
+		records := cache.Len() / recordSize
+		if records > 1 {
+			// keep the window even, but never let it shrink to zero: a cache of
+			// exactly one record is what remains when plotting resumes from an
+			// odd checkpoint, and an empty window would never make progress
+			records -= records & 1
+		}
+		return pocutil.PoCValue(records)
 	}
 	for startPoint := checkpoint; startPoint < hmA.volume; {
 		if err := ensureCacheMemory(startPoint); err != nil {
